@@ -24,8 +24,12 @@ type c16Driver struct {
 
 var errC16 = errors.New("c16 fixture: no database")
 
-func (*c16Driver) QueryContext(context.Context, string, ...any) (*sql.Rows, error) { return nil, errC16 }
-func (*c16Driver) ExecContext(context.Context, string, ...any) (sql.Result, error) { return nil, errC16 }
+func (*c16Driver) QueryContext(context.Context, string, ...any) (*sql.Rows, error) {
+	return nil, errC16
+}
+func (*c16Driver) ExecContext(context.Context, string, ...any) (sql.Result, error) {
+	return nil, errC16
+}
 func (*c16Driver) ApplyChanges(context.Context, []schema.Change, ...migrate.PlanOption) error {
 	return errC16
 }
